@@ -1318,9 +1318,94 @@ func c09FakeDescs(rs []*Region) string {
 	}
 	return strings.Join(s, ";")
 }
+// newRegion on an arbitrary PD answer: peers on TiKV / TiFlash / tiflash_compute / tombstone stores, witnesses,
+// learners, down peers, any (or no, or an unknown) leader
+func (e *c09Env) unitNewRegion() {
+	type st struct {
+		id   uint64
+		kind int
+		tomb bool
+	}
+	pool := []st{}
+	for _, s := range e.stores {
+		pool = append(pool, st{s, 0, false})
+	}
+	pool = append(pool, st{90, 1, false}, st{91, 2, false}, st{92, 0, true}, st{93, 1, false})
+	e.rng.Shuffle(len(pool), func(i, j int) { pool[i], pool[j] = pool[j], pool[i] })
+	n := 1 + e.rng.Intn(5)
+	meta := &metapb.Region{Id: 500, RegionEpoch: &metapb.RegionEpoch{Version: 1, ConfVer: 1}}
+	var ps, kinds []string
+	for i := 0; i < n && i < len(pool); i++ {
+		p := &metapb.Peer{Id: uint64(600 + i), StoreId: pool[i].id}
+		if pool[i].kind != 0 || e.rng.Intn(5) == 0 {
+			p.Role = metapb.PeerRole_Learner
+		}
+		if e.rng.Intn(6) == 0 {
+			p.IsWitness = true
+		}
+		meta.Peers = append(meta.Peers, p)
+		b := func(x bool) int {
+			if x {
+				return 1
+			}
+			return 0
+		}
+		ps = append(ps, fmt.Sprintf("%d:%d:%d:%d", p.Id, p.StoreId, b(p.IsWitness), b(p.Role == metapb.PeerRole_Learner)))
+		kinds = append(kinds, fmt.Sprintf("%d:%d:%d", pool[i].id, pool[i].kind, b(pool[i].tomb)))
+	}
+	var leader *metapb.Peer
+	switch e.rng.Intn(6) {
+	case 0:
+		leader = &metapb.Peer{}
+	case 1:
+		leader = &metapb.Peer{Id: 999, StoreId: pool[0].id}
+	default:
+		q := meta.Peers[e.rng.Intn(len(meta.Peers))]
+		leader = &metapb.Peer{Id: q.Id, StoreId: q.StoreId}
+	}
+	var down []*metapb.Peer
+	var ds []string
+	for _, p := range meta.Peers {
+		if e.rng.Intn(5) == 0 {
+			down = append(down, &metapb.Peer{Id: p.Id, StoreId: p.StoreId})
+			ds = append(ds, fmt.Sprintf("%d:%d", p.Id, p.StoreId))
+		}
+	}
+	dj := "_"
+	if len(ds) > 0 {
+		dj = strings.Join(ds, "/")
+	}
+	e.op("u_newregion", []string{strings.Join(ps, "/"), fmt.Sprintf("%d:%d", leader.Id, leader.StoreId), dj, strings.Join(kinds, "/")}, func() string {
+		r, err := newRegion(e.bo(), e.cache, &router.Region{Meta: meta, Leader: leader, DownPeers: down})
+		if err != nil {
+			return c09Err(err)
+		}
+		rs := r.getStore()
+		ix := func(l []int) string {
+			if len(l) == 0 {
+				return "_"
+			}
+			x := make([]string, len(l))
+			for i, v := range l {
+				x[i] = fmt.Sprint(v)
+			}
+			return strings.Join(x, "/")
+		}
+		return fmt.Sprintf("ok avail=%s tikv=%s tiflash=%s work=%d", c09Peers(r.meta.Peers), ix(rs.accessIndex[tiKVOnly]), ix(rs.accessIndex[tiFlashOnly]), int(rs.workTiKVIdx))
+	})
+}
 func (e *c09Env) seqUnit(n int) {
+	e.cluster.AddStore(90, "store90", &metapb.StoreLabel{Key: "engine", Value: "tiflash"})
+	e.cluster.AddStore(93, "store93", &metapb.StoreLabel{Key: "engine", Value: "tiflash"})
+	e.cluster.AddStore(91, "store91", &metapb.StoreLabel{Key: "engine", Value: "tiflash_compute"})
+	e.cluster.AddStore(92, "store92")
+	e.cluster.MarkTombstone(92)
 	e.truth()
 	for i := 0; i < n && !e.halted(); i++ {
+		if e.rng.Intn(4) == 0 {
+			e.unitNewRegion()
+			continue
+		}
 		switch e.rng.Intn(3) {
 		case 0:
 			cs, us := e.chain(1+e.rng.Intn(5), true), e.chain(1+e.rng.Intn(5), false)
@@ -1411,6 +1496,24 @@ func VerifC09Main(args []string) int {
 	w := bufio.NewWriterSize(os.Stdout, 1<<20)
 	defer w.Flush()
 	go c09Watchdog()
+	if len(args) >= 1 && args[0] == "probe-notikv" {
+		// PD reports the region's only TiKV peer as down, its TiFlash learner is up
+		e := c09NewEnv(w, 1, -1, false)
+		e.cluster.AddStore(90, "store90", &metapb.StoreLabel{Key: "engine", Value: "tiflash"})
+		meta := &metapb.Region{Id: 500, RegionEpoch: &metapb.RegionEpoch{Version: 1, ConfVer: 1},
+			Peers: []*metapb.Peer{{Id: 600, StoreId: e.stores[0]}, {Id: 601, StoreId: 90, Role: metapb.PeerRole_Learner}}}
+		r, err := newRegion(e.bo(), e.cache, &router.Region{Meta: meta, Leader: &metapb.Peer{Id: 600, StoreId: e.stores[0]}, DownPeers: []*metapb.Peer{{Id: 600, StoreId: e.stores[0]}}})
+		fmt.Fprintf(w, "newRegion err=%v tikv=%v tiflash=%v work=%d\n", err, r.getStore().accessIndex[tiKVOnly], r.getStore().accessIndex[tiFlashOnly], r.getStore().workTiKVIdx)
+		e.cache.mu.Lock()
+		e.cache.insertRegionToCache(r, true, true)
+		e.cache.mu.Unlock()
+		func() {
+			defer func() { fmt.Fprintf(w, "GetTiKVRPCContext recovered: %v\n", recover()) }()
+			ctx, err := e.cache.GetTiKVRPCContext(e.bo(), r.VerID(), kv.ReplicaReadLeader, 0)
+			fmt.Fprintf(w, "GetTiKVRPCContext = %v err=%v\n", ctx, err)
+		}()
+		return 0
+	}
 	if len(args) >= 1 && args[0] == "probe-bucket" {
 		for _, tc := range [][]string{{"t", "z", "a,h,m", "u"}, {"a", "m", "p,q,z", "b"}, {"f", "m", "a,h,p,z", "g"}} {
 			loc := &KeyLocation{StartKey: []byte(tc[0]), EndKey: []byte(tc[1]), Buckets: &metapb.Buckets{Version: 1}}
